@@ -69,6 +69,11 @@ def directed_char():
         h.append(dict(kind="chist", objs=[dict(len=3, allowChars=o("xyz"), requireSets=a), dict(len=3, allowChars=o("xyz"), requireSets=b)],
                       steps=[call(0), call(1), call(0), dict(op="set", obj=0, field="requireSets", sets=b), call(0), dict(op="set", obj=1, field="requireSets", sets=a), call(1)],
                       maxTrials=0, failRateOne=1, tag="same-shape"))
+    # two recipes that are refused for different failure probabilities, then the first again: each error is its own call's
+    cjk = lambda a, b: [0x4E00 + i for i in range(a, b)]
+    h.append(dict(kind="chist", objs=[dict(len=1, allowChars=cjk(1, 31), requireSets=[cjk(0, 1)]), dict(len=1, allowChars=cjk(1, 50), requireSets=[cjk(0, 1)]),
+                                      dict(len=0, allow=4)],
+                  steps=[call(0), call(1), call(0), call(2), call(1), call(0)], maxTrials=0, failRateOne=0, tag="refused-twice"))
     # a call whose random source fails (at the first, a later, the last read; after 0-3 bytes) is recovered by the caller: the calls after
     # it behave as if it had never been made
     for at, got in ((1, 0), (1, 2), (2, 0), (3, 3), (7, 1)):
